@@ -679,10 +679,11 @@ func ExeName(goCmd, cacheDir string, files []string) (string, error) {
 		}
 		hashes = append(hashes, h)
 	}
-	// hash the mainfile template to ensure if it gets updated, we make a new
-	// binary.
-	hashes = append(hashes, fmt.Sprintf("%x", sha1.Sum([]byte(mageMainfileTplString))))
 	sort.Strings(hashes)
+	// hash the mainfile template to ensure if it gets updated, we make a new
+	// binary. It goes after the sorted file hashes, so that it can not be
+	// taken for the hash of a magefile.
+	hashes = append(hashes, fmt.Sprintf("%x", sha1.Sum([]byte(mageMainfileTplString))))
 	ver, err := internal.OutputDebug(goCmd, "version")
 	if err != nil {
 		return "", err
